@@ -495,6 +495,12 @@ def _em(d, ctx, kind, **kw):
         ctx.label('per-iteration(hook)')
         for it, (model, aff, q) in enumerate(trace):
             if mm.ill_conditioned(model, case):
+                # the estimator clause is well defined on a guard too (the
+                # oracles clip / floor like the documentation says): judge the
+                # M-step that produced this model, then stop - the E-step
+                # comparison of the next iteration would amplify rounding
+                if it == 0 or not mm.ill_conditioned(trace[it - 1][0], case):
+                    compare_mstep(case, model, mstep_oracle(case, aff, q), it)
                 raise Borderline('fit sits on a numerical guard')
             if it == 0:
                 require_close(np.broadcast_to(aff, case.aff_shape),
